@@ -19,7 +19,7 @@ pub fn prop() -> Prop {
         max_len: 600,
         quick: 100_000,
         thorough: 2_000_000,
-        rule: "choice sequence -> envelope (every subject case: leaf, known value, wrapped, assertion, node, compressed, elided, encrypted; with and without assertions) x generated 32-byte key x optional fixed nonce; encrypt_subject/decrypt_subject and encrypt/decrypt round trips; then faults on the encrypted element taken apart with the harness codec, exactly one of {bit flip in ciphertext / nonce / tag / declared digest, declared digest replaced by another valid digest, ciphertext truncated / extended / replaced by another message's}, re-assembled into the envelope and decoded; then key-holder mis-declarations key.encrypt_with_digest(cbor(A), digest(B)), A != B, bare and as the subject of a node, and a plaintext that is not an envelope. oracle: encrypted form has the specification digest of the original at every surviving position; decrypt with the same key is identical to the original (structure, bytes, is_identical_to); wrong key, every fault and every mis-declaration give Err (never Ok, never a panic); a second encrypt_subject is refused. non-trivial: subject is not a bare leaf, or >=1 fault reached decrypt; distinct by FNV-64 of (encoding, key); malformed digest declarations by a key holder (untagged / raw / 31-byte / trailing byte / wrong tag / single byte / application data) through Envelope::try_from and through the decoder (bare and as a node's subject): never an envelope out of decrypt_subject, never a panic; the encrypted whole with assertions added afterwards still decrypts to the original",
+        rule: "choice sequence -> envelope (every subject case: leaf, known value, wrapped, assertion, node, compressed, elided, encrypted; with and without assertions) x generated 32-byte key x optional fixed nonce; encrypt_subject/decrypt_subject and encrypt/decrypt round trips; then faults on the encrypted element taken apart with the harness codec, exactly one of {bit flip in ciphertext / nonce / tag / declared digest, declared digest replaced by another valid digest, ciphertext truncated / extended / replaced by another message's}, re-assembled into the envelope and decoded; then key-holder mis-declarations key.encrypt_with_digest(cbor(A), digest(B)), A != B, bare and as the subject of a node, and a plaintext that is not an envelope. oracle: encrypted form has the specification digest of the original at every surviving position; decrypt with the same key is identical to the original (structure, bytes, is_identical_to); wrong key, every fault and every mis-declaration give Err (never Ok, never a panic); a second encrypt_subject is refused. non-trivial: subject is not a bare leaf, or >=1 fault reached decrypt; distinct by FNV-64 of (encoding, key); malformed digest declarations by a key holder (untagged / raw / 31-byte / trailing byte / wrong tag / single byte / application data) through Envelope::try_from and through the decoder (bare and as a node's subject): never an envelope out of decrypt_subject, never a panic; the encrypted whole with assertions added afterwards still decrypts to the original; if an elided subject's placeholder is encrypted, the result opens again to the original",
         assumptions: &["ChaCha20-Poly1305 forgery probability is negligible", "an elided subject: refusal or placeholder encryption are both tolerated (not covered by the property)"],
         extra: None,
     }
